@@ -39,7 +39,7 @@ def run_C14(ctx):
 
 
 def run_C15(ctx):
-    drive_and_validate(ctx, [{"driver": "C15", "n": sz(ctx, 480, 24000)}])
+    drive_and_validate(ctx, [{"driver": "C15", "n": sz(ctx, 1600, 60000)}])
 
 
 def run_C16(ctx):
@@ -89,7 +89,8 @@ def run_C03(ctx):
     # every other driver's workload also counts: their events carry the outcome
     k = sz(ctx, 400, 10000)
     drive_and_validate(ctx, [{"driver": "OUT:" + d, "n": k, "probes": 2} for d in
-                             ("C01", "C06", "C11", "C14", "C15", "C16", "C19", "C17")])
+                             ("C01", "C06", "C11", "C14", "C15", "C16", "C19", "C17", "C04", "C09", "C05", "C10", "C08", "C02")])
+    drive_and_validate(ctx, [{"driver": "OUT:" + d, "n": max(100, k // 4), "probes": 2} for d in ("C07", "C13")])
 
 
 def run_C04(ctx):
